@@ -298,33 +298,71 @@ func stageCanon() {
 	}
 
 	// ---- layer groups: the final sort with its tie-breaker ----------------------------
-	for i := 0; i < 12*scale; i++ {
+	for i := 0; i < 12*scale+4; i++ {
 		norig := 1 + r.Intn(6)
 		var pkgs []*apk.Package
 		byOrigin := map[string][]string{}
 		sizes := map[string]uint64{}
 		names := shuffled(r, []string{"a", "b", "c", "d", "e", "f", "g", "h", "i", "j", "k", "l", "m", "A", "a-b", "zz"})
 		np := norig + r.Intn(len(names)-norig+1)
+		zeroOrigins := 0
+		if i < 4 { // corners: several origins whose packages all have installed size 0 (symlink-only packages), next to ordinary ones
+			norig, np, zeroOrigins = 3+i, 3+i+i%2, 2+i%3
+		}
 		for j := 0; j < np; j++ {
 			o := fmt.Sprintf("o%d", j%norig)
 			if j >= norig {
 				o = fmt.Sprintf("o%d", r.Intn(norig))
 			}
 			sz := uint64([]int{0, 10, 10, 20, 30}[r.Intn(5)])
+			if i < 4 {
+				sz = 10 * uint64(j+1)
+				var on int
+				fmt.Sscanf(o, "o%d", &on)
+				if on < zeroOrigins {
+					sz = 0
+				}
+			}
 			pkgs = append(pkgs, &apk.Package{Name: names[j], Version: "1.0-r0", Origin: o, InstalledSize: sz})
 			byOrigin[o] = append(byOrigin[o], names[j])
 			sizes[o] += sz
 		}
 		pkgs = shuffled(r, pkgs)
 		var got []build.VerifC01Group
+		budget := norig + r.Intn(3)
 		err := guard("groupByOriginAndSize", func() error {
 			var err error
-			got, err = build.VerifC01GroupByOriginAndSize(pkgs, norig+r.Intn(3))
+			got, err = build.VerifC01GroupByOriginAndSize(pkgs, budget)
 			return err
 		})
 		if err != nil {
 			fmt.Printf("IMPL-VIOLATION tag=canon-groups-fails %s\n", jsonOf(map[string]any{"error": err.Error()}))
 			continue
+		}
+		// the same packages in other orders, several times: one answer (Go map iteration inside the function differs between calls)
+		for rep := 0; rep < 6; rep++ {
+			var again []build.VerifC01Group
+			if e := guard("groupByOriginAndSize", func() error {
+				var err error
+				again, err = build.VerifC01GroupByOriginAndSize(shuffled(r, pkgs), budget)
+				return err
+			}); e != nil {
+				break
+			}
+			same := len(again) == len(got)
+			for k := 0; same && k < len(got); k++ {
+				same = strings.Join(again[k].Names, " ") == strings.Join(got[k].Names, " ")
+			}
+			if !same && len(again) == len(got) {
+				desc := func(gs []build.VerifC01Group) (o [][]string) {
+					for _, g := range gs {
+						o = append(o, g.Names)
+					}
+					return
+				}
+				fmt.Printf("IMPL-VIOLATION tag=layer-groups-differ-between-runs %s\n", jsonOf(map[string]any{"by_origin": byOrigin, "sizes": sizes, "one_run": desc(got), "another_run": desc(again)}))
+				break
+			}
 		}
 		var in, out []string
 		for o, ns := range byOrigin { // Go map order: any order will do
